@@ -72,6 +72,10 @@ def evaluate(run, lines, meta, exe, drv):
         enc, dec = t[3], t[4]
         # --- the property, evaluated on the implementation's own observations
         want = canon(parse(v), True)
+        if tag(enc) == 'writer-err' and fw.null_ns_schema(st) and show(parse(model.get(cid + 'e', '(missing)'))) == show(enc):
+            # no writer can be built for this schema, and the faithful model says the same (F26)
+            run.fail('unresolvable-reference-accepted', 'the parser accepted the schema but no writer can be built for it (a null-namespace name used inside a namespaced type)', case)
+            continue
         if tag(enc) != 'ok':
             run.fail('encode-fails', 'conforming value is not encoded: %s' % show(enc), case)
         elif tag(dec) != 'ok':
@@ -86,6 +90,11 @@ def evaluate(run, lines, meta, exe, drv):
                 if len(unhx(enc[1])) >= 2:
                     run.nontrivial_case(st + v)
                 run.sample({'schema': st, 'value': v[:200], 'bytes': enc[1][:80]})
+        # --- the other entry points of the round trip (to_avro_datum, write_value_to_vec, write_value; from_avro_datum*)
+        if len(t) > 5 and tag(t[5]) != 'skipped':
+            run.count('entry-points:' + show(t[5]))
+            if show(t[5]) != '(ok 1 1)':
+                run.fail('entry-points-differ', 'to_avro_datum / write_value_to_vec / write_value / from_avro_datum* do not behave like GenericDatumWriter::write_value_ref / GenericDatumReader::read_value: %s' % show(t[5]), case)
         # --- correspondence
         me = model.get(cid + 'e')
         if me is None or show(parse(me)) != show(enc):
